@@ -12,7 +12,9 @@ SpecEntry(h) == CASE h \in {"validate", "validateCfg"} -> "validate"
                   [] h = "compile" -> "compile"
                   [] h \in {"validateCompiled", "validateCompiledCfg"} -> "validateCompiled"
                   [] h = "compileThenValidate" -> "validate"
-ChanModes == {"none", "unbuf", "buf"}
+\* none: no channel; unbuf: unbuffered with an eager listener; buf: a buffer larger than any run, read afterwards;
+\* bufSmall: a two-slot buffer with a lazy listener (the sender has to wait for it)
+ChanModes == {"none", "unbuf", "buf", "bufSmall"}
 
 VARIABLE c
 CaseInit == c \in [entry : HarnessEntries, prof : Profiles, doc : Docs, chan : ChanModes]
